@@ -4,7 +4,7 @@ import "golang.org/x/tools/go/ssa"
 
 func init() {
 	register("C22", []string{".", "./vfs/atomicfs", "./internal/manifest", "./record"}, runC22)
-	propExplain["C22"] = "Decides the ordering clause of C22: in every path of versionSet.UpdateVersionLocked / initNewDB / createManifest the MANIFEST write protocol holds (create ⊢ dir sync; Next ⊢ Encode ⊢ Flush ⊢ file Sync ⊢ marker Move ≺ success), the in-memory version is installed only through the nil-error edge of that I/O, failures are fatal, the protocol runs under the manifest lock, and only the three owner functions install versions / move the marker. Also the error-identity clause of recovery: recoverVersion tells a torn MANIFEST tail from corruption by comparing errors with ==, so no function in the call trees of record.Reader.Next and VersionEdit.Decode may return a wrapped callee error. Does not decide that recovery picks the right edits (value-level)."
+	propExplain["C22"] = "Decides the ordering clause of C22: in every path of versionSet.UpdateVersionLocked / initNewDB / createManifest the MANIFEST write protocol holds (create ⊢ dir sync; Next ⊢ Encode ⊢ Flush ⊢ file Sync ⊢ marker Move ≺ success), the in-memory version is installed only through the nil-error edge of that I/O, failures are fatal, the protocol runs under the manifest lock, and only the three owner functions install versions / move the marker. Also the error-identity clause of recovery: recoverVersion tells a torn MANIFEST tail from corruption by comparing errors with ==, so no function in the call trees of record.Reader.Next and VersionEdit.Decode may return a wrapped callee error. Shares the atomic-marker rules of C24 (Move reports success only after the new marker file and the directory were synced). Does not decide that recovery picks the right edits (value-level)."
 }
 
 func manifestSteps() []Step {
@@ -96,6 +96,8 @@ func runC22(c *Ctx) {
 		}
 		c.RequireAtSuccess("C22.O3", res, "snapshot.Encode", []string{"ok:snapshot.Encode"})
 	}
+	// the marker that names the current MANIFEST: C24's Move / locate rules are shared
+	runC24(c)
 	// C22.E2: the torn-tail classification in recoverVersion compares errors by identity, so the
 	// record reader and the version-edit decoder must hand the reader's sentinels on unwrapped.
 	if fn := c.Fn("C22.E2", "p.recoverVersion"); fn != nil {
